@@ -273,6 +273,25 @@ def check(ix, rep):
     for _nf in _norms.values():
         _u2.check_transformer(ix, rep, None, None, 'dense', func=_nf)
     rep.floor('bound normalisers of the pastifier', len(_norms), 1)
+    # the samples computed with are the samples supplied (no conversion of the elements on entry)
+    from sa.rules import truthy as _te
+    _ne = 0
+    for _m in M.standard_monitors(ix):
+        if _m.kind == 'dense-online':
+            _de = ix.resolve_method(_m.cls, 'set_variable_to_ast_from_dataset')
+            if _de is None:
+                raise AnalysisError('set_variable_to_ast_from_dataset of %s vanished' % _m.kind)
+            rep.analysed(_de)
+            _ne += _te.check_entry_verbatim(ix, rep, _de, _m.kind)
+    rep.floor('data-entry stores', _ne, 1)
+    # a robustness value is a number, never a flag: in the dense-time online code no value emitted in a sample (or anything it is computed from)
+    # is used for its truth value
+    from sa.rules import truthy as _tr
+    _fs = []
+    for _m in sorted(ix.modules.values(), key=lambda m_: m_.name):
+        if '.dense_time.online' in _m.name and 'antlr' not in _m.name:
+            _fs += list(_m.functions.values()) + [g_ for c_ in _m.classes.values() for g_ in c_.methods.values()]
+    rep.floor('dense-time functions that handle robustness values', _tr.check_dense_values(ix, rep, _fs, 'dense-online'), 10)
     explanation = (
         'Carry-over structure only. R-STEP: the update visitor steps every operation object exactly once per update (memo keyed by node name, hit '
         'decided by membership and not by the truth value of the cached result). R-SIB: the eleven binary dense-time online operations (and/or/implies/iff/xor, + - * / pow log) have '
